@@ -140,10 +140,10 @@ def idiom_terms(v, spelling):
 
 
 class C02(QProp):
-    """Theorems (Props/C02.lean): `Compound::factor`, `+`, `-` and the `to` step accept two non-empty proportional compounds iff the specification's base dimensions agree, whatever the spelling, otherwise `illegalOperation` / `illegalCast`; a plain number adopts the unit in either order. Correspondence: pairs of random and respelled unit expressions, cancelling idioms, plus a sweep built from the human reference table only (`1 name^p to base-SI`). End to end (Props/QuantityQuery.lean): `C02_query` — the rendered TEXT of `a + b`, `a - b`, `a to u` through lexer, parser and evaluator succeeds iff the specification's dimensions agree."""
+    """Theorems (Props/C02.lean): `Compound::factor`, `+`, `-` and the `to` step accept two non-empty proportional compounds iff the specification's base dimensions agree, whatever the spelling, otherwise `illegalOperation` / `illegalCast`; a plain number adopts the unit in either order. Correspondence: pairs of random and respelled unit expressions, cancelling idioms, plus a sweep built from the human reference table only (`1 name^p to base-SI`). End to end (Props/QuantityQuery.lean): `C02_query` — the rendered TEXT of `a + b`, `a - b`, `a to u` through lexer, parser and evaluator succeeds iff the specification's dimensions agree. Unified language (Props/UnifiedQuery.lean): `C02_query_fact` — a fact phrase ± a quantity is accepted iff the dimensions agree."""
     id = "C02"
     module = "Anything.Props.C02"
-    extra_modules = ["Anything.Props.QuantityQuery"]
+    extra_modules = ["Anything.Props.QuantityQuery", "Anything.Props.UnifiedQuery"]
     trusted = ["Spec.SI (dimension vectors, commensurability) is human input", "unit table extracted by the translator"]
 
     def cases(self, rng, tier):
@@ -173,6 +173,22 @@ class C02(QProp):
             else:
                 e = Q.Cast(G.Paren(G.Bin(rng.choice("+-"), Q.Qty(x, u1), Q.Qty(y, u2))), u1 if rng.chance(1, 2) else u2)
             items.append((e, Q.layout_q(e, rng, "canon" if i % 3 else "random"), f"{'same' if same else 'random'}-kind{kind}"))
+        # chains of casts group left to right (`x to U1 to U2 [to U3]` is `((x to U1) to U2) to U3`);
+        # the first operand may be a plain number, which adopts U1 and is then
+        # CONVERTED by the later casts
+        for i in range(400 if tier == "quick" else 6000):
+            u1 = Q.rand_unit(v, rng)
+            def other(u):
+                w = Q.respell(v, rng, u) if rng.chance(2, 3) else Q.decompose(v, rng, u)
+                return w or u
+            u2 = other(u1) if rng.chance(5, 6) else Q.rand_unit(v, rng)
+            x = Q.small_value(rng)
+            k = rng.below(4)
+            first = L(x) if k <= 1 else Q.Qty(x, other(u1)) if k == 2 else G.Paren(G.Bin("+", L(x), L("1")))
+            e = Q.Cast(Q.Cast(first, u1), u2)
+            if rng.chance(1, 3):
+                e = Q.Cast(e, other(u2))
+            items.append((e, Q.layout_q(e, rng, "canon" if i % 3 else "random"), f"cast-chain-{k}"))
         cases = q_cases(items)
         # commensurability judged by the HUMAN reference table (not by the table extracted from
         # the source): every reference name at powers 1, -1, 2 against the base-SI spelling
@@ -183,10 +199,10 @@ class C02(QProp):
 
 
 class C03(QProp):
-    """Theorems (Props/C03.lean): a conversion multiplies by scale(source)/scale(target) with the specification's exact scale (non-zero by a table fact re-checked every run): round trips, via an intermediate, linearity, prefix = power of ten, powers, products. Correspondence: every unit word as source and target, random commensurable pairs, prefixed temperature scales. End to end: `C03_query` — the text `x u1 to u2` answers x·scale u1/scale u2 in u2."""
+    """Theorems (Props/C03.lean): a conversion multiplies by scale(source)/scale(target) with the specification's exact scale (non-zero by a table fact re-checked every run): round trips, via an intermediate, linearity, prefix = power of ten, powers, products. Correspondence: every unit word as source and target, random commensurable pairs, prefixed temperature scales. End to end: `C03_query` — the text `x u1 to u2` answers x·scale u1/scale u2 in u2. Unified language (Props/UnifiedQuery.lean): `C03_query_fact` — `<phrase> to <unit>` converts the looked-up constant."""
     id = "C03"
     module = "Anything.Props.C03"
-    extra_modules = ["Anything.Props.QuantityQuery"]
+    extra_modules = ["Anything.Props.QuantityQuery", "Anything.Props.UnifiedQuery"]
     trusted = ["Spec.SI.scale over the extracted table", "unit table extracted by the translator"]
 
     def cases(self, rng, tier):
@@ -229,10 +245,10 @@ class C03(QProp):
 
 
 class C04(QProp):
-    """Theorems (Props/C04.lean): `Compound::mul` with every iteration of `reconstruct` preserves base dimensions and SI value; `*`, `/`, `^` refine Spec.SI.qmul/qdiv/qpow; zero divisor is an error; x^0 is the dimensionless one; a power leaving the i32 range is an error. Correspondence: expression trees over quantities, SI value and dimensions compared whatever unit is displayed. End to end: `C04_query` — products, quotients and literal integer powers written as text have the SI value and dimensions of Spec.SI.qmul/qdiv/qpow."""
+    """Theorems (Props/C04.lean): `Compound::mul` with every iteration of `reconstruct` preserves base dimensions and SI value; `*`, `/`, `^` refine Spec.SI.qmul/qdiv/qpow; zero divisor is an error; x^0 is the dimensionless one; a power leaving the i32 range is an error. Correspondence: expression trees over quantities, SI value and dimensions compared whatever unit is displayed. End to end: `C04_query` — products, quotients and literal integer powers written as text have the SI value and dimensions of Spec.SI.qmul/qdiv/qpow. Unified language (Props/UnifiedQuery.lean): `C04_query_fact` — `*`, `/`, `^` of a looked-up constant."""
     id = "C04"
     module = "Anything.Props.C04"
-    extra_modules = ["Anything.Props.QuantityQuery"]
+    extra_modules = ["Anything.Props.QuantityQuery", "Anything.Props.UnifiedQuery"]
     compare_unit = False
     trusted = ["Spec.SI over the extracted table", "unit table extracted by the translator"]
 
@@ -377,10 +393,10 @@ class _OffsetLaws:
 
 
 class C13(_OffsetLaws, QProp):
-    """Theorems (Props/C13.lean): `+ - * /` on proportional quantities refine the specification's SI operations, hence commutativity, associativity, distributivity, a-a = 0, a/a = 1 for the evaluator's results; products stay proportional; every shipped fact is in scope (kernel check over the regenerated facts table). Offset scales excluded (recorded finding). Correspondence: both sides of every law on literals and shipped facts, all pairs of units in both orders, a reference-driven pair sweep. End to end: `C13_query` — the SI reading of any in-scope quantity expression written as text is the specification's denotation, hence the laws hold for whole queries."""
+    """Theorems (Props/C13.lean): `+ - * /` on proportional quantities refine the specification's SI operations, hence commutativity, associativity, distributivity, a-a = 0, a/a = 1 for the evaluator's results; products stay proportional; every shipped fact is in scope (kernel check over the regenerated facts table). Offset scales excluded (recorded finding). Correspondence: both sides of every law on literals and shipped facts, all pairs of units in both orders, a reference-driven pair sweep. End to end: `C13_query` — the SI reading of any in-scope quantity expression written as text is the specification's denotation, hence the laws hold for whole queries. Unified language (Props/UnifiedQuery.lean): `C13_query_unified` — every well-formed expression over literals with units AND fact phrases, as TEXT, answers the specification's SI value and dimensions."""
     id = "C13"
     module = "Anything.Props.C13"
-    extra_modules = ["Anything.Props.QuantityQuery"]
+    extra_modules = ["Anything.Props.QuantityQuery", "Anything.Props.UnifiedQuery"]
     needs_db_tables = True
     compare_unit = False
     trusted = ["Spec.SI over the extracted table", "facts are read through the real database lookup"]
